@@ -118,6 +118,8 @@ int main(int argc, char** argv) {
         int k = 0;
         for (auto& op : in.kv["ops"]) {
             char key[32]; snprintf(key, 32, "prof%d", k); if (in.has(key)) setprof(key);
+            if (in.has("zlast") && (size_t)k + 1 == in.kv["ops"].size()) {      // the shared impedance object is changed before the last call (Impedance::operator= / += between two uses of the field)
+                auto v = in.fv("zlast"); auto* zd = const_cast<impedance_t*>((*w.z)->data()); for (size_t i = 0; i + 1 < v.size() && i / 2 < N; i += 2) zd[i / 2] = impedance_t(v[i], v[i + 1]); }
             if (op == "w") { float* r = e_wake(w.f); dumpf(fo, "wake", r, (size_t)nb * n); }
             else if (op == "c") { const float* r = e_csr(w.f, (float)in.d("cutoff", 0, 0)); dumpf(fo, "csr", r, (size_t)nb * N); dumpf(fo, "csrpower", w.f->getCSRPower(), nb); }
             else if (op == "C") { e_csr(w.f, (float)in.d("cutoff2", 0, 0)); }       // an earlier CSR computation with another cutoff setting (history only)
